@@ -107,7 +107,7 @@ def register_localbkg(reg):
     for tag, mspec in (('mask', ('arr', 2, 'bool')), ('nomask', ('const', None))):
         reg.add(Contract(
             target=f'{L}.__call__', props=['C12'], kind='method', tag='data-flow-' + tag,
-            block=('x', 'values'),
+            block=('x', 'bkg', 1),
             params={'self': 'LocalBackground', 'x': ('seq', 'real'), 'y': ('seq', 'real'),
                     'data': ('arr', 2, 'real', 'nonfinite'), 'mask': mspec},
             requires=['len(x) == len(y)'],
